@@ -58,8 +58,8 @@ impl Property for C13 {
     }
     fn cases(&self, tier: Tier) -> u64 {
         match tier {
-            Tier::Quick => 30_000,
-            Tier::Thorough => 600_000,
+            Tier::Quick => 300000,
+            Tier::Thorough => 4000000,
         }
     }
     fn decode(&mut self, tape: &TapeVal) -> Case {
